@@ -130,11 +130,16 @@ theorem close_wakes_and_waits :
     after (bodyOf Gen.FactsC15.closeBodies "Mux.Close") "range{underlay.Close()}" "<-m.maintenanceDone" = true ∧
     after (bodyOf Gen.FactsC15.closeBodies "Mux.Close") "range{underlay.Close()}" "m.serverUnderlayLoopWG.Wait()" = true := by decide
 
-/-- Structural tie for "the other end is told": the close request that `Session.Close` queues is what
-    ends its wait — `lastSend` is stored at one place, and not for acknowledgements, which repeat the
+/-- Structural tie for "the other end is told": `closeWithError` queues the close request, polls
+    `lastSend`, falls back to sending it directly, and only then empties the queues and closes
+    `closedChan`; the close request that `Session.Close` queues is what ends its wait — `lastSend` is stored at one place, and not for acknowledgements, which repeat the
     number of the close request while it is still queued; and the server's UDP event loop, whose return
     closes the socket, closes the sessions (`u.Close()`) before it returns on a cancelled context. -/
 theorem close_request_is_sent :
+    after Gen.FactsC15.closeWithErrorCalls "s.sendQueue.Insert" "s.lastSend.Load" = true ∧
+    after Gen.FactsC15.closeWithErrorCalls "s.lastSend.Load" "s.output" = true ∧
+    after Gen.FactsC15.closeWithErrorCalls "s.output" "s.sendQueue.DeleteAll" = true ∧
+    after Gen.FactsC15.closeWithErrorCalls "s.sendQueue.DeleteAll" "close" = true ∧
     Gen.FactsC15.lastSendStores = [("Session.output", "!isAckProtocol(seg.Protocol())")] ∧
     (Gen.FactsC15.ctxDoneBodies.filter fun x => x.1 == "PacketUnderlay.RunEventLoop").map
       (fun x => after x.2 "u.Close()" "return nil") = [true] := by decide
@@ -175,7 +180,7 @@ theorem loss_releases_partial (u : USt) (hd : u.underlayDone = false)
         have hw : loopStep w = none := by
           simp only [loopStep, h, hd, Bool.false_eq_true, if_false, if_true, Option.some.injEq] at hs
           subst hs
-          simp [loopStep, h] at hs2
+          simp [loopStep] at hs2
         rw [hw]
         exact this
   · have hstep : loopStep { u with netLost := true } = some { u with netLost := true, loop := .reading } := by
